@@ -28,7 +28,7 @@ ASSUMPTIONS = [
 ]
 BUDGET = {"quick": {"examples": 4000}, "thorough": {"examples": 300000, "deadline_s": 1500}}
 
-CFG = gen.cfg(max_syms=12, string_tier="B")
+CFG = gen.cfg(max_syms=12, string_tier="U")
 
 
 @st.composite
